@@ -46,9 +46,22 @@ Definition is_mod (h : heap) (p : path) : bool :=
   match find_obj h p with Some KMod => true | _ => false end.
 
 (* ------------------------------------------------------------------------------------------------
-   Object.resolve(name): members of the scope, then the enclosing scopes up to (and including) the module.
+   Object.resolve(name): members of the scope; then -- the body of a class is not an enclosing scope for the classes
+   nested in it -- from a class scope the enclosing CLASS bodies are skipped (`while parent.is_class and
+   parent.parent is not None: parent = parent.parent`) and the search goes on in what encloses them (the module).
+   Every non-module object of the heap that serves as a scope is a class (functions are not modelled).
    fuel = length of the scope path + 1; running out cannot happen (the scope shrinks) and means "not found".
    ------------------------------------------------------------------------------------------------ *)
+(* the parent after the skipping loop: the nearest enclosing module, or the outermost object *)
+Fixpoint skip_classes (fuel : nat) (h : heap) (p : path) : path :=
+  match fuel with
+  | 0 => p
+  | S f => if is_mod h p then p
+           else match removelast p with
+                | [] => p                                   (* parent.parent is None *)
+                | q => skip_classes f h q
+                end
+  end.
 Fixpoint resolve_name (fuel : nat) (h : heap) (scope : path) (n : string) : option path :=
   match fuel with
   | 0 => None
@@ -60,10 +73,10 @@ Fixpoint resolve_name (fuel : nat) (h : heap) (scope : path) (n : string) : opti
           match find_obj h scope with
           | Some KMod | None => None                       (* NameResolutionError *)
           | Some _ =>
-              let parent := removelast scope in
-              match parent with
-              | [] => None
-              | _ => if String.eqb n (last parent "") && negb (is_mod h parent) then Some parent
+              match removelast scope with
+              | [] => None                                  (* self.parent is None *)
+              | q => let parent := skip_classes (List.length q) h q in
+                     if String.eqb n (last parent "") && negb (is_mod h parent) then Some parent
                      else resolve_name f h parent n
               end
           end
